@@ -448,8 +448,8 @@ def targeted_cases(rng, n):
         sc.op("cab_extract_all", "c0", "out", 4).op("cab_close", "c0")
         out.append(Case("hostile:cab-search-size", "cab", sc))
     # (5) MSZIP (and the other methods) with the repair / salvage parameters on, several blocks: every read fails in turn
-    for i in range(max(2, n // 2)):
-        meth = ("mszip",) if i % 2 == 0 else rng.choice([("lzx", 16), ("qtm", 15), ("none",)])
+    for i in range(max(4, n // 2)):
+        meth = [("mszip",), ("qtm", 15), ("mszip",), ("lzx", 16), ("mszip",), ("none",), ("qtm", 17), ("lzx", 17)][i % 8]
         lens = [rng.choice([33000, 50000]), rng.choice([20000, 40000]), rng.choice([100, 33000])]
         if meth[0] in ("mszip", "none"): fo = cabfmt.Folder(meth, cabfmt.random_members(rng, 3, lens=lens))
         else: fo = cabfmt.Folder(meth, [cabfmt.Member(b"r%d.bin" % j, length=lens[j]) for j in range(3)])
